@@ -4,3 +4,6 @@ import RB.Model.Stats
 import RB.Proofs.C15
 import RB.Model.Settings
 import RB.Proofs.C02
+import RB.Util.SettingsJson
+import RB.Model.Runs
+import RB.Proofs.C01
